@@ -14,9 +14,9 @@ import z3
 from . import seqs
 from .state import Oblig
 
-Z3_TIMEOUT_MS = int(os.environ.get("VF_Z3_TIMEOUT_MS", "10000"))
-CVC5_TIMEOUT_S = int(os.environ.get("VF_CVC5_TIMEOUT_S", "20"))
-Z3NEW_TIMEOUT_S = int(os.environ.get("VF_Z3NEW_TIMEOUT_S", "20"))
+Z3_TIMEOUT_MS = int(os.environ.get("VF_Z3_TIMEOUT_MS", "30000"))
+CVC5_TIMEOUT_S = int(os.environ.get("VF_CVC5_TIMEOUT_S", "40"))
+Z3NEW_TIMEOUT_S = int(os.environ.get("VF_Z3NEW_TIMEOUT_S", "40"))
 
 
 def _has_quant(t) -> bool:
@@ -147,6 +147,17 @@ def _solve_one(idx) -> Dict[str, Any]:
     try:
         s = _build_solver(ob, Z3_TIMEOUT_MS)
         r = s.check()
+        if r == z3.unknown and time.time() - t0 < 0.5 * Z3_TIMEOUT_MS / 1000.0:
+            # gave up early ("incomplete (theory array)", "incomplete quantifiers"): the answer of the default configuration
+            # depends on term order; ask again without model-based instantiation and with other seeds before going on
+            for cfg in ({"smt.mbqi": False}, {"smt.random_seed": 7}, {"smt.random_seed": 23, "smt.mbqi": False}):
+                s2 = _build_solver(ob, Z3_TIMEOUT_MS // 2)
+                for k_, v_ in cfg.items():
+                    s2.set(k_, v_)
+                r2 = s2.check()
+                if r2 != z3.unknown:
+                    s, r = s2, r2
+                    break
         if r == z3.unsat:
             out.update(verdict="unsat", solver=f"z3 {z3.get_version_string()}")
         elif r == z3.sat:
